@@ -38,7 +38,8 @@ CONCAT_CLAUSES = [('concatenate.sound', 'cat(olang(*a), olang(*b)).subset_of(ola
 UNION_CLAUSES = [('union.sound', 'olang(*a).union(olang(*b)).subset_of(olang(r))', ['C01', 'C16']),
                  ('union.exact', 'olang(r) == olang(*a).union(olang(*b))', ['C02', 'C16']),
                  ('union.some', 'r is Some ==> *a is Some || *b is Some', ['C02', 'C16'])]
-NEW_LITERAL_CLAUSES = [('new_literal.lang', 'lang(r) == lit_lang(cluster.graphemes@)', ['C02', 'C16']), ('new_literal.shape', 'r is Literal && r->Literal_0 == cluster', ['C02'])]
+NEW_LITERAL_CLAUSES = [('new_literal.lang', 'lang(r) == lit_lang(cluster.graphemes@)', ['C02', 'C16']), ('new_literal.shape', 'r is Literal && r->Literal_0 == cluster', ['C02']),
+                       ('new_literal.settings_in_their_positions', 'r is Literal && r->Literal_1 == config.is_non_ascii_char_escaped && r->Literal_2 == config.is_astral_code_point_converted_to_surrogate', ['C11'])]
 NEW_ALTERNATION_ENSURES = ['lang(r) == alt_lang(exprs@)']
 # is_each_test_case_matched_after_rotating_alternations: verified here, assumed with the same text in unit regexp
 ROTATE_CLAUSES = [('rotate.lang_preserved', 'lang(*final(expr)) == lang(*old(expr))', ['C01', 'C08', 'C16']),
@@ -67,9 +68,10 @@ def build(repo, spec_dir, canary=False):
     b.emit("impl<'a> Expression<'a> {")
     EX = "^impl<'a> Expression<'a> \\{"
     V = lambda name, **kw: b.verified_fn('expression.rs', name, within=EX, props=['C07'], fname='Expression::' + name, **kw)
-    V('new_concatenation', clauses=[Clause('new_concatenation.lang', 'lang(r) == cat(lang(expr1), lang(expr2))', ['C02', 'C16'])])
+    V('new_concatenation', clauses=[Clause('new_concatenation.lang', 'lang(r) == cat(lang(expr1), lang(expr2))', ['C02', 'C16']),
+                                    Clause('new_concatenation.settings_in_their_positions', 'r is Concatenation && r->Concatenation_2 == config.is_capturing_group_enabled && r->Concatenation_3 == config.is_output_colorized && r->Concatenation_4 == config.is_verbose_mode_enabled', ['C06', 'C15'])])
     V('new_literal', clauses=[Clause(*c) for c in NEW_LITERAL_CLAUSES])
-    V('new_repetition', clauses=[Clause('new_repetition.lang', 'lang(r) == (match quantifier { Quantifier::QuestionMark => lang(expr).union(eps()), Quantifier::KleeneStar => star(lang(expr)) })', ['C02', 'C16'])])
+    V('new_repetition', clauses=[Clause('new_repetition.settings_in_their_positions', 'r is Repetition && r->Repetition_2 == config.is_capturing_group_enabled && r->Repetition_3 == config.is_output_colorized && r->Repetition_4 == config.is_verbose_mode_enabled', ['C06', 'C15']), Clause('new_repetition.lang', 'lang(r) == (match quantifier { Quantifier::QuestionMark => lang(expr).union(eps()), Quantifier::KleeneStar => star(lang(expr)) })', ['C02', 'C16'])])
     V('is_empty', clauses=[Clause('is_empty.eps', 'r ==> lang(*self) == eps()', ['C02', 'C16'])])
     V('precedence')
     V('len', requires=['alts_nonempty(*self)', 'wlen(*self) <= usize::MAX'], decreases='self',
@@ -100,7 +102,8 @@ impl<'a> Expression<'a> {""")
               (1, 'loop_start', '            let ghost f0 = flattened_options@; proof { assert(option == current_options@[it1.index@]); lemma_alt_take_step(current_options@, it1.index@); }'),
               (1, 'loop_end', '            proof { if !(current_options@[it1.index@] is Alternation) { lemma_alt_lang_push(f0, current_options@[it1.index@]); } }', ('flatten.lang@loop1', ['C01', 'C02', 'C08', 'C16'])),
               (1, 'loop_after', '        proof { assert(current_options@.take(current_options@.len() as int) =~= current_options@); }')])
-    V('new_alternation', clauses=[Clause('new_alternation.lang', NEW_ALTERNATION_ENSURES[0], ['C01', 'C02', 'C08', 'C16'])],
+    V('new_alternation', clauses=[Clause('new_alternation.lang', NEW_ALTERNATION_ENSURES[0], ['C01', 'C02', 'C08', 'C16']),
+                                  Clause('new_alternation.settings_in_their_positions', 'r is Alternation && r->Alternation_1 == config.is_capturing_group_enabled && r->Alternation_2 == config.is_output_colorized && r->Alternation_3 == config.is_verbose_mode_enabled', ['C06', 'C15'])],
       extra_rules=[('R19', r'options\.sort_by_key\(\|option\| Reverse\(option\.len\(\)\)\);', 'vx_sort_by_key_permutes(&mut options);', 'sort_by_key(closure): a permutation; the key only decides the order')],
       blocks=[('vx_sort_by_key_permutes(&mut options);', 'before', '        let ghost options_before_sort = options@;'),
               (None, 'before_tail', '        proof { lemma_alt_lang_empty(); lemma_alt_lang_perm(options_before_sort, options@); }')])
@@ -118,7 +121,8 @@ impl Grapheme {""")
     b.assumed_fn('cluster.rs', 'char_count', within=GC, ensures=['r == cc_spec(*self, is_non_ascii_char_escaped)'],
                  why='iter().map(closure).sum(): the number of code points of the (escaped) text; a positive count needs a non-empty first grapheme')
     b.emit("}\nimpl<'a> Expression<'a> {")
-    V('new_character_class', clauses=[Clause('new_character_class.lang', 'lang(r) == class_lang(first_char_set@.union(second_char_set@))', ['C02', 'C16'])],
+    V('new_character_class', clauses=[Clause('new_character_class.lang', 'lang(r) == class_lang(first_char_set@.union(second_char_set@))', ['C02', 'C16']),
+                                      Clause('new_character_class.settings_in_their_positions', 'r is CharacterClass && r->CharacterClass_1 == config.is_output_colorized', ['C15'])],
       blocks=[(None, 'fn_start', '        broadcast use lemma_lang_class;')],
       extra_rules=[('R19', r'\b(\w+)\.union\(&(\w+)\)\.copied\(\)\.collect\(\)', r'vx_btreeset_union(&\1, &\2)', 'BTreeSet::union(..).copied().collect()')])
     V('is_single_codepoint', clauses=[Clause('is_single_codepoint.structure', 'r == single_cp_spec(*self)', ['C02', 'C03']),
